@@ -5,6 +5,7 @@ from spec.group import *
 import contracts.c02_group_assumed  # noqa: F401
 from spec.numth import *
 from contracts.c02_curve import inv_mod_def
+from contracts.c02_mul import smul_mod_order_pt
 
 GEN = AbsGenerator()
 T = "pycoin.ecdsa.Generator:Generator."
@@ -17,6 +18,11 @@ def inv_mod_law(a, n):
     inv_mod_def(a, n)
     w = inv_mod(a % n, n)
     return implies(is_prime(n) and a % n != 0, (a * w) % n == 1 and 0 < w and w < n)
+
+
+@axiom(sig={}, reason="point addition commutes (Mathlib: add_comm; lean: padd_comm_law)", lean="lean/GroupLaws.lean")
+def padd_comm(P, Q):
+    return padd(P, Q) == padd(Q, P)
 
 
 def ecdsa_R(self, Qx, Qy, z, r, s):
@@ -43,6 +49,15 @@ class verify:
         return oncurve(public_pair[0], public_pair[1])
 
     def ensures_textbook(self, public_pair, val, sig, result):
+        # ghost: code that reduces the two multipliers modulo the group order first, or adds the two points in the other
+        # order, computes the same point
+        n = self._order
+        w = inv_mod(sig[1] % n, n)
+        Q = mkpt(public_pair[0], public_pair[1])
+        smul_mod_order_pt(val * w, n, GPT())
+        smul_mod_order_pt(sig[0] * w, n, Q)
+        padd_comm(smul(val * w, GPT()), smul(sig[0] * w, Q))
+        padd_comm(smul((val * w) % n, GPT()), smul((sig[0] * w) % n, Q))
         return result == ecdsa_verify_spec(self, public_pair[0], public_pair[1], val, sig[0], sig[1])
 
     canaries = [("s >= order", "s > order"), ("v = point[0] % order", "v = point[0]"), ("if val == 0:\n        return False", "if False:\n        return False")]
